@@ -490,9 +490,57 @@ def count_seq_containers(v):
     return sum(count_seq_containers(c) for c in kids)
 
 
+_START_PARSERS = {}
+
+
+def template_start_case(ctx, rng):
+    """the start symbol of the grammar is itself a list / map template (no wrapper production above it)"""
+    kind = rng.choice(["list", "map"])
+    if kind not in _START_PARSERS:
+        prods = ({'E': ListProds('[', 'ITEM', ',', ']'), 'ITEM': [('WORD',), ('NUMBER',), ('E',)]} if kind == "list"
+                 else {'E': MapProds('{', 'WORD', ':', 'VAL', ',', '}'), 'VAL': [('WORD',), ('E',)]})
+        _START_PARSERS[kind] = llparser.LLParser(TOK, synonyms=SYN, productions=prods)
+
+    def gen(d):
+        if kind == "list":
+            return [gen(d + 1) if d < 3 and rng.random() < 0.3 else rng.choice(ATOMS)
+                    for _ in range(rng.choice([0, 1, 2, 3]))]
+        return [(rng.choice(KEYS), gen(d + 1) if d < 3 and rng.random() < 0.3 else rng.choice(["a", "zz"]))
+                for _ in range(rng.choice([0, 1, 2, 3]))]
+
+    def text_of(v):
+        if isinstance(v, str):
+            return v
+        if kind == "list":
+            return "[" + ws(rng) + (ws(rng) + "," + ws(rng)).join(text_of(x) for x in v) + ws(rng) + "]"
+        return "{" + ws(rng) + (ws(rng) + "," + ws(rng)).join(k + ws(rng) + ":" + ws(rng) + text_of(x) for k, x in v) + "}"
+
+    def want_of(v):
+        if isinstance(v, str):
+            return v
+        if kind == "list":
+            return [want_of(x) for x in v]
+        return ('DICT', list(dict((k, want_of(x)) for k, x in v).items()))
+    data = gen(0)
+    text = text_of(data)
+    case = {"options": {"start_symbol_is_a_template": kind}, "text": text}
+    ctx.evaluated()
+    try:
+        got = norm(_START_PARSERS[kind].parse(text))
+    except Exception as err:
+        ctx.violation("valid-text-rejected", {"type": type(err).__name__, "msg": str(err)[:200]}, case)
+        return
+    ctx.count("grammars_starting_at_a_template_parsed")
+    if got != want_of(data):
+        ctx.violation("value-differs-from-data", {"got": repr(got)[:300], "expected": repr(want_of(data))[:300]}, case)
+
+
 def run_shard(ctx):
     for i in range(ctx.cases):
         rng = ctx.rng(i)
+        if i % 10 == 9:
+            for _ in range(6):
+                template_start_case(ctx, rng)
         o = gen_options(rng)
         try:
             mk_parser(o)
@@ -538,6 +586,12 @@ def _detuple(v):
 
 
 def replay(ctx, case):
+    kind = (case.get("options") or {}).get("start_symbol_is_a_template")
+    if kind:
+        import random
+        for k in range(300):     # (the data is not recorded: the family is small, it is simply run again)
+            template_start_case(ctx, random.Random(k))
+        return
     om = case["om"]
     if om is not None:
         om = [tuple(x) for x in om]
